@@ -28,6 +28,16 @@ theorem binary_cases :
         | some n => row.2 == [(n, [("Left", "node"), ("Right", "right")])]
         | none => true)) = true := by decide
 
+/-- [C10, C04, C20] …and hands on nothing else: every assignment to the loop's result in a binary-operator case is that node
+    freshly built — no case may substitute a folded, negated or otherwise rewritten operand for the operator node -/
+theorem binary_cases_assign :
+    loopAssigns.all (fun row => row.1.all (fun tn =>
+      match tokOfName tn with
+      | none => false
+      | some t => match expectedLoopNode t with
+        | some n => row.2 == ["lit:" ++ n]
+        | none => true)) = true := by decide
+
 /-- [C10, C04] …and every such token has a case -/
 theorem binary_cases_complete :
     allTokens.all (fun t => (expectedLoopNode t).isNone || loopNodes.any (fun row => row.1.any (fun tn => tokOfName tn == some t))) = true := by
